@@ -773,3 +773,15 @@ impl<Ctx: OptCtx> LoweredToLir<'_, Ctx> {
         crate::verif_hooks::c12::dump_kinds(&self.ir)
     }
 }
+
+
+#[cfg(feature = "verif-hooks")]
+impl<'r, Ctx: OptCtx> LoweredToMir<'r, Ctx> {
+    /// Verification hook (C01, LIR layer): every function as MIR and as the
+    /// LIR the next stage makes of it.
+    pub fn verif_c01_stage_pairs(self) -> Vec<crate::verif_hooks::c01::StagePair> {
+        let mir = self.ir.clone();
+        let lowered = self.lower_to_lir();
+        crate::verif_hooks::c01::stage_pairs_of(&mir, &lowered.ir)
+    }
+}
